@@ -34,8 +34,8 @@ EXTENDS ScaleCodec
 
 CONSTANTS TyNames      \* which of the named types this configuration enumerates
 
-CtHash == ScArr(32, ScU(1))
-CtEngine == ScArr(4, ScU(1))
+CtHash == ScU(32)          \* n raw bytes: the same encoding as [n]u8
+CtEngine == ScU(4)
 CtPayload == ScTuple(<<CtEngine, ScBytes>>)
 CtDigestItem == ScEnum("DigestItem", << [i |-> 0, t |-> ScBytes], [i |-> 4, t |-> CtPayload], [i |-> 5, t |-> CtPayload],
                                         [i |-> 6, t |-> CtPayload], [i |-> 8, t |-> ScTuple(<<>>)] >>)
@@ -45,10 +45,10 @@ CtAnnounce == ScTuple(<<CtHash, ScCompact, CtHash, CtHash, CtDigest, ScBool>>)
 CtHandshake == ScTuple(<<ScU(1), ScU(4), CtHash, CtHash>>)
 CtBody == ScSlice(ScBytes)
 CtTxMsg == ScTuple(<<CtBody>>)
-CtVrf == ScTuple(<<ScU(4), ScU(8), ScArr(32, ScU(1)), ScArr(64, ScU(1))>>)
+CtVrf == ScTuple(<<ScU(4), ScU(8), ScU(32), ScU(64)>>)
 CtBabePre == ScEnum("BabePre", << [i |-> 1, t |-> CtVrf], [i |-> 2, t |-> ScTuple(<<ScU(4), ScU(8)>>)], [i |-> 3, t |-> CtVrf] >>)
 CtVote == ScTuple(<<CtHash, ScU(4)>>)
-CtSignedVote == ScTuple(<<CtVote, ScArr(64, ScU(1)), ScArr(32, ScU(1))>>)
+CtSignedVote == ScTuple(<<CtVote, ScU(64), ScU(32)>>)
 
 CtType(name) == CASE name = "header" -> CtHeader [] name = "announce" -> CtAnnounce [] name = "handshake" -> CtHandshake
                   [] name = "body" -> CtBody [] name = "txmsg" -> CtTxMsg [] name = "babepre" -> CtBabePre
@@ -69,7 +69,7 @@ Digests == << <<>>, <<Items[1]>>, <<Items[2]>>, <<Items[3]>>, <<Items[4]>>, <<It
               <<Items[4], Items[1]>>, <<Items[1], Items[5], Items[4]>>, <<Items[6]>>, <<Items[1], Items[7], Items[3]>> >>
 HeaderVals == [j \in 1..(Len(Numbers) + Len(Digests)) |->
                  IF j <= Len(Numbers) THEN <<ScAt(<<HA, HB, HC>>, j), Numbers[j], HB, ScAt(<<HC, HA>>, j), ScAt(Digests, j)>>
-                 ELSE <<HB, ScAt(Numbers, j), HC, HA, Digests[j - Len(Numbers)]>>]
+                 ELSE <<HB, ScAt(Numbers, j + 3), HC, HA, Digests[j - Len(Numbers)]>>]
 VrfVals == << <<Rep(4, 0), Rep(8, 0), Rep(32, 0), Rep(64, 0)>>, <<<<1, 2, 3, 4>>, <<1, 2, 3, 4, 5, 6, 7, 8>>, HB, Rep(64, 9)>>,
               <<Rep(4, 255), Rep(8, 255), HC, Rep(64, 255)>> >>
 CtVals(name) ==
